@@ -163,7 +163,12 @@ def chk_basis(ctx, basis, enumerate_simples=True):
         if ("finitely many simples" in out and "infinitely" not in out) is not meth:
             report("basis", [basis], f"`permtools simple` printed {out!r}, class method says {meth}")
     # variations that must not matter
-    variants = {"reversed": B[::-1], "repeated": B + B[:1], "tuple": tuple(B), "set": set(B)}
+    variants = {"reversed": B[::-1], "repeated": B + B[:1], "tuple": tuple(B), "set": set(B), "frozenset": frozenset(B)}
+    if len(B) >= 3:  # every other listing order (lengths interleaved, longest first, ...)
+        orders = [o for o in itertools.permutations(range(len(B))) if list(o) != list(range(len(B)))]
+        for o in (orders if len(orders) <= 5 else ctx.rng.sample(orders, 5)):
+            variants[f"in the order {o}"] = [B[i] for i in o]
+        ctx.count("variants.other_orders")
     for name, var in variants.items():
         ctx.ev()
         if PinWords.has_finite_simples(var) is not util:
@@ -290,7 +295,11 @@ def inside_family_bases(rng, count):
                 pos = sorted(rng.sample(range(len(member)), k))
                 basis.append(list(C.std([member[i] for i in pos])))
         rng.shuffle(basis)
-        out.append(basis[: rng.randint(1, 4)])
+        basis = basis[: rng.randint(1, 4)]
+        if rng.random() < 0.2:  # a short element next to long ones (finite and near-finite classes)
+            k = rng.randint(1, 2)
+            basis.insert(rng.randint(0, len(basis)), rng.sample(range(k), k))
+        out.append(basis)
     return out
 
 
@@ -299,10 +308,14 @@ def plan(tier, seed):
     s4 = [[list(p)] for p in itertools.permutations(range(4))]
     if tier == "quick":
         bases = s3 + s4[::3] + [[[0, 1, 2, 3], [3, 2, 0, 1]], [[1, 3, 0, 2], [2, 0, 3, 1]], [[0, 2, 1], [2, 1, 0, 3]], [[1, 2, 0], [0, 1, 2, 3]],
-                                [[0, 1, 2], [2, 1, 0]], [[0, 2, 1], [1, 0, 2]], [[2, 0, 1, 3], [1, 3, 0, 2], [3, 0, 2, 1]]]
+                                [[0, 1, 2], [2, 1, 0]], [[0, 2, 1], [1, 0, 2]], [[2, 0, 1, 3], [1, 3, 0, 2], [3, 0, 2, 1]],
+                                [[0, 1], [3, 2, 1, 0]], [[1, 0], [0, 1, 2]], [[0], [0, 1, 2]], [[0, 1], [1, 2, 0]], [[1, 0], [0, 1, 3, 2]], [[0, 1], [1, 0]],
+                                [[2, 0, 3, 1], [0, 1, 2], [1, 0, 3, 2]], [[2, 0, 1], [1, 2, 3, 0], [2, 1, 0]], [[1, 0, 2, 3], [0, 2, 1], [3, 2, 1, 0], [1, 2, 0]]]
         extra = 24
     else:
         bases = s3 + s4 + [[a[0], b[0]] for a, b in itertools.combinations(s3 + s4[::2], 2)][::5]
+        short = [[0], [0, 1], [1, 0]]
+        bases += [[a, b[0]] for a in short for b in (s3 + s4[::5])] + [[[2, 0, 3, 1], [0, 1, 2], [1, 0, 3, 2]], [[2, 0, 1], [1, 2, 3, 0], [2, 1, 0]]]
         extra = 200
     parts = 16
     probes = [(fi, oi) for fi, n in enumerate((4, 4, 8)) for oi in range(n)]
